@@ -137,6 +137,22 @@ def guarded(e, pred):
     return [(c, p) for c, p in e.guards if pred(c, p)]
 
 
+def combined_return(fa):
+    """The value a function returns as ONE term: its returns in order, each under the conditions it is
+    reached with (whether the function has one exit or several)."""
+    acc = T.NONE
+    for e in reversed(returns(fa)):
+        conds = []
+        for c, p in e.cguards:
+            t = c if p else T.not_(c)
+            conds.extend(t[1] if t[0] == 'and' else [t])
+        if not conds:
+            acc = e.value
+        else:
+            acc = T.ite(conds[0] if len(conds) == 1 else T.nary('and', tuple(conds)), e.value, acc)
+    return acc
+
+
 def ite_arms(t):
     """Both arms of a conditional term with the condition under which each is taken
     (independent of the orientation the normaliser chose): [(cond, value), (not cond, value)]."""
